@@ -111,6 +111,8 @@ func (C08) Generate(r *core.Rand, tier string, idx int) *core.Scenario {
 	// input classes with an open finding: one of them in a quarter of the runs
 	if r.P(1, 8) {
 		sc.Cfg["k_comma"] = 1
+	} else if r.P(1, 8) {
+		sc.Cfg["k_numid"] = 1 // remote message IDs that read as numbers
 	}
 	bulk := r.P(1, 4)
 	if bulk {
